@@ -276,4 +276,73 @@ func runC08(r *Run) {
 		})
 	}
 	r.Floor("R6", "EndTime stores in x/vesting", nEnd, 3)
+	// ---------- R7 ----------
+	r.Rule("R7", "SHAPE.locked-definitions: the definitional one-liners LockedCoins is built from have their defining shape — GetUnlockedCoins = ReadSchedule(…, LockupPeriods, OriginalVesting, t); GetVestedCoins = ReadSchedule(…, VestingPeriods, OriginalVesting, t); GetUnlockedVestedCoins = Min(GetUnlockedCoins, GetVestedCoins); GetVestingCoins = OriginalVesting − GetVestedCoins; GetLockedUpCoins = OriginalVesting − GetUnlockedCoins; GetLockedUpVestedCoins = GetVestedCoins − GetUnlockedVestedCoins; LockedCoins = OriginalVesting − (GetUnlockedVestedCoins + Min(DelegatedFree + DelegatedVesting, GetLockedUpVestedCoins))")
+	const vaPfx = "(x/vesting/types.ClawbackVestingAccount)."
+	hasCallNamed := func(v ssa.Value, name string) bool {
+		return backSlice(v).HasCall(func(g CallInfo) bool { return g.Name == name })
+	}
+	hasFieldNamed := func(v ssa.Value, f string) bool { return backSlice(v).HasField("", f) }
+	// the defining operation: some return operand (or, for LockedCoins, the SafeSub) is a call `name` whose
+	// receiver and argument satisfy the two predicates (in this order, or swapped when commutative)
+	type shape struct {
+		fn, op      string
+		recv, arg   func(ssa.Value) bool
+		commutative bool
+		text        string
+	}
+	shapes := []shape{
+		{"GetUnlockedCoins", "ReadSchedule", nil, nil, false, "ReadSchedule over LockupPeriods and OriginalVesting"},
+		{"GetVestedCoins", "ReadSchedule", nil, nil, false, "ReadSchedule over VestingPeriods and OriginalVesting"},
+		{"GetUnlockedVestedCoins", "Min", func(v ssa.Value) bool { return hasCallNamed(v, "GetUnlockedCoins") }, func(v ssa.Value) bool { return hasCallNamed(v, "GetVestedCoins") }, true, "Min(GetUnlockedCoins, GetVestedCoins)"},
+		{"GetVestingCoins", "Sub", func(v ssa.Value) bool { return hasFieldNamed(v, "OriginalVesting") && !hasCallNamed(v, "GetVestedCoins") }, func(v ssa.Value) bool { return hasCallNamed(v, "GetVestedCoins") }, false, "OriginalVesting − GetVestedCoins"},
+		{"GetLockedUpCoins", "Sub", func(v ssa.Value) bool { return hasFieldNamed(v, "OriginalVesting") && !hasCallNamed(v, "GetUnlockedCoins") }, func(v ssa.Value) bool { return hasCallNamed(v, "GetUnlockedCoins") }, false, "OriginalVesting − GetUnlockedCoins"},
+		{"GetLockedUpVestedCoins", "Sub", func(v ssa.Value) bool { return hasCallNamed(v, "GetVestedCoins") && !hasCallNamed(v, "GetUnlockedVestedCoins") }, func(v ssa.Value) bool { return hasCallNamed(v, "GetUnlockedVestedCoins") }, false, "GetVestedCoins − GetUnlockedVestedCoins"},
+		{"LockedCoins", "SafeSub", func(v ssa.Value) bool { return hasFieldNamed(v, "OriginalVesting") && !hasCallNamed(v, "GetUnlockedVestedCoins") }, func(v ssa.Value) bool {
+			return hasCallNamed(v, "GetUnlockedVestedCoins") && hasCallNamed(v, "Add") && hasCallNamed(v, "Min") && hasCallNamed(v, "GetLockedUpVestedCoins") && hasFieldNamed(v, "DelegatedFree")
+		}, false, "OriginalVesting − (GetUnlockedVestedCoins + Min(DelegatedFree + DelegatedVesting, GetLockedUpVestedCoins))"},
+	}
+	for _, sh := range shapes {
+		fn, ok := P.FnOK(vaPfx + sh.fn)
+		if !ok {
+			r.Bad("R7", "anchor/"+sh.fn, "", "not found")
+			continue
+		}
+		found := false
+		eachCall(fn, func(ci CallInfo) {
+			if ci.Name != sh.op || found {
+				return
+			}
+			args := ci.Instr.Common().Args
+			if sh.op == "ReadSchedule" {
+				if len(args) != 5 {
+					return
+				}
+				periodsField := map[string]string{"GetUnlockedCoins": "LockupPeriods", "GetVestedCoins": "VestingPeriods"}[sh.fn]
+				other := map[string]string{"GetUnlockedCoins": "VestingPeriods", "GetVestedCoins": "LockupPeriods"}[sh.fn]
+				found = hasFieldNamed(args[2], periodsField) && !hasFieldNamed(args[2], other) && hasFieldNamed(args[3], "OriginalVesting") && backSlice(args[4]).HasParam("blockTime") &&
+					(hasFieldNamed(args[0], "StartTime") || hasCallNamed(args[0], "GetStartTime")) && hasFieldNamed(args[1], "EndTime")
+				return
+			}
+			if len(args) < 2 {
+				return
+			}
+			a, b := args[0], args[1]
+			if sh.recv(a) && sh.arg(b) || sh.commutative && sh.recv(b) && sh.arg(a) {
+				// and the result is what the function returns (or, for SafeSub, its first component)
+				sl := false
+				eachInstr(fn, func(in ssa.Instruction) {
+					if ret, ok := in.(*ssa.Return); ok {
+						for _, op := range retOperands(ret) {
+							if backSlice(op).Has(ci.Instr.Value()) {
+								sl = true
+							}
+						}
+					}
+				})
+				found = sl
+			}
+		})
+		r.Check(found, "R7", vaPfx+sh.fn+"#definition", P.Pos(fnPos(fn)), sh.text, "ClawbackVestingAccount."+sh.fn+" no longer has its defining shape ("+sh.text+"): the locked amount the bank keeper enforces is computed from a different combination of the schedules")
+	}
 }
